@@ -194,6 +194,7 @@ fn gen_opts(thorough: bool, std_per_mille: u32) -> P2Opts {
         std_per_mille,
         collide_per_mille: 0,
         ensure_wildcard: true,
+        single_def_per_mille: 250,
     }
 }
 
